@@ -190,7 +190,14 @@ class SamplerProp(core.Prop):
 
     def shapes(self, tier):
         names = QUICK if tier == 'quick' else sorted(CONFIGS)
-        return [{'cfg': n, 'kmax': self.KMAX[tier], 'prefix': [a, b]} for n in names for a in range(4) for b in range(4)]
+        out = [{'cfg': n, 'kmax': self.KMAX[tier], 'prefix': [a, b]} for n in names for a in range(4) for b in range(4)]
+        # the same through the plain constructor, and with the start_fragment option (first draws unconstrained)
+        for i, n in enumerate(names):
+            if tier != 'quick' or i % 3 == 0:
+                out.append({'cfg': n, 'kmax': self.KMAX[tier] - 1, 'prefix': [], 'via': 'ctor'})
+            if tier != 'quick' or i % 3 == 1:
+                out.append({'cfg': n, 'kmax': self.KMAX[tier] - 1, 'prefix': [], 'via': 'start'})
+        return out
 
     def build(self, shape):
         cfg = CONFIGS[shape['cfg']]
@@ -217,6 +224,10 @@ class SamplerProp(core.Prop):
         kw = dict(cfg['kw'])
         if inp.get('masses'):
             kw['fragment_masses'] = dict(inp['masses'])
+        if shape.get('via') == 'ctor':
+            # the plain constructor with fragment graphs read by the caller
+            fd = M.read_fragments.read_fragments(cfg['frags'], all_atom=cfg['aa'])
+            return M.sample.MoleculeSampler(fd, all_atom=cfg['aa'], seed=seed, **kw)
         s = M.sample.MoleculeSampler.from_fragment_string(cfg['frags'], all_atom=cfg['aa'], seed=seed, **kw)
         return s
 
@@ -234,7 +245,11 @@ class SamplerProp(core.Prop):
                 raise symx.PathAbort()
             return orig(*a, **k)
         s.add_fragment = add
-        mol = s.sample(inp['target'])
+        if shape.get('via') == 'start':
+            # the documented start_fragment option: the first fragment named in the string
+            mol = s.sample(inp['target'], start_fragment=CONFIGS[shape['cfg']]['frags'][2:].split('=', 1)[0])
+        else:
+            mol = s.sample(inp['target'])
         data = pl.graph_data(mol, keys=pl.NODE_KEYS + ('bonding',))
         return {'mol': data, 'masses': {k: v for k, v in s.fragment_masses.items()}, 'steps': count[0]}
 
